@@ -33,10 +33,17 @@ GOOD_STRINGS = [('10', 10.0), ('2km', 2000.0), ('3 miles', 3 * 1609.344), ('1.5 
 def jobs(tier, seed):
     out = [{'name': 'euclidean-metric', 'kind': 'euclid'}, {'name': 'euclidean-triangle-inequality', 'kind': 'euclid-tri'}, {'name': 'manhattan-metric', 'kind': 'manhattan'},
            {'name': 'great-circle-symmetry-zero-bound', 'kind': 'gc'}, {'name': 'great-circle-zero-only-if-coincident', 'kind': 'gc-zero'},
+           # the same claims case-split along the quantifier's landmarks (antimeridian crossings in either direction, poles, interior):
+           # every counterexample of a region job lies in that region, so a defect confined to one region is replayed there
+           {'name': 'great-circle-symmetry-antimeridian-west', 'kind': 'gc', 'region': 'am-west'}, {'name': 'great-circle-symmetry-antimeridian-east', 'kind': 'gc', 'region': 'am-east'},
+           {'name': 'great-circle-symmetry-interior', 'kind': 'gc', 'region': 'interior'}, {'name': 'great-circle-symmetry-pole', 'kind': 'gc', 'region': 'pole'},
            {'name': 'great-circle-range-rejection', 'kind': 'gc-range'},
            {'name': 'distance-dispatch', 'kind': 'dispatch'}]
     for i, r in enumerate(RADII):
         out.append({'name': 'circle-kernel-r%d' % i, 'kind': 'circle', 'radius': r})
+    # cells exactly on the ellipse (Pythagorean offsets 3-4-5, 5-12-13, 8-15-17, 7-24-25 / 15-20-25): concrete radius and cell size, the comparison must be exact
+    for i, (cx, cy, r) in enumerate(((1.0, 1.0, 5), (1.0, 1.0, 13), (0.5, 0.5, 6.5), (2.0, 1.0, 26), (1.0, 1.0, 17), (30.0, 30.0, '0.75km'))):
+        out.append({'name': 'circle-kernel-on-the-circle-%d' % i, 'kind': 'circle-fixed', 'radius': r, 'cellsize': [cx, cy]})
     for ro in (2, 3):
         for ri in (0.5, 1):
             out.append({'name': 'annulus-kernel-%s-%s' % (ro, ri), 'kind': 'annulus', 'outer': ro, 'inner': ri})
@@ -94,6 +101,15 @@ def body(ctx, job):
         sc.set_axioms(sqrt_zero=True, sqrt_one=True, odd_even=True)
         x1, x2 = _pt(ctx, 'lon1', -180, 180), _pt(ctx, 'lon2', -180, 180)
         y1, y2 = _pt(ctx, 'lat1', -90, 90), _pt(ctx, 'lat2', -90, 90)
+        region = job.get('region')
+        if region == 'am-west':
+            ctx.assume(And(x2 - x1 < -181, abs(y1) < 80, abs(y2) < 80, abs(y1 - y2) > 1))
+        elif region == 'am-east':
+            ctx.assume(And(x2 - x1 > 181, abs(y1) < 80, abs(y2) < 80, abs(y1 - y2) > 1))
+        elif region == 'interior':
+            ctx.assume(And(abs(x2 - x1) < 179, abs(x2 - x1) > 1, abs(y1) < 80, abs(y2) < 80, abs(y1 - y2) > 1))
+        elif region == 'pole':
+            ctx.assume(Or(y1 == 90, y1 == -90))
         d12 = ctx.call('proximity:great_circle_distance', x1, x2, y1, y2)
         ctx.observe('d12', d12)
         if kind == 'gc':
@@ -132,6 +148,8 @@ def body(ctx, job):
     sc.set_axioms()
     if kind == 'circle':
         return body_circle(ctx, job)
+    if kind == 'circle-fixed':
+        return body_circle_fixed(ctx, job)
     if kind == 'annulus':
         return body_annulus(ctx, job)
     if kind == 'units':
@@ -211,6 +229,18 @@ def body_circle(ctx, job):
               And(hw * csx <= rm * (1 + 1e-12), (hw + 1) * csx > rm * (1 - 1e-12), hh * csy <= rm * (1 + 1e-12), (hh + 1) * csy > rm * (1 - 1e-12)),
               info=lambda m: {'shape': list(k.shape), 'cellsize_x': ctx.ev(m, csx), 'cellsize_y': ctx.ev(m, csy), 'radius_m': rm})
     _check_ellipse(ctx, k, hw, hh, 'circle')
+
+
+def body_circle_fixed(ctx, job):
+    r = job['radius']
+    csx, csy = job['cellsize']
+    k = ctx.call('convolution:circle_kernel', csx, csy, r)
+    ctx.observe('kernel', k)
+    rm = _radius_m(r)
+    hw, hh = int(rm / csx), int(rm / csy)
+    ctx.check('shape-is-odd-and-spans-the-radius', list(k.shape) == [2 * hh + 1, 2 * hw + 1], info={'shape': list(k.shape), 'want': [2 * hh + 1, 2 * hw + 1]})
+    if list(k.shape) == [2 * hh + 1, 2 * hw + 1]:
+        _check_ellipse(ctx, k, hw, hh, 'circle')
 
 
 def body_annulus(ctx, job):
